@@ -62,6 +62,8 @@ var lgTable = []lgEntry{
 	{Rule: "L3", Func: "tensor.(StdEng).Reduce", Site: "$r.E.ReduceLast(", Goal: "!%at.DataOrder().IsColMajor()", Props: []string{"C08", "C16"}, Why: "the last-axis kernel assumes row-major storage"},
 	{Rule: "L1", Func: "tensor.(StdEng).argmaxDenseTensor", Site: "$r.E.ArgmaxFlat(", Goal: "!(%ok && %d.IsMaterializable())", OrStep: ".Materialize()", Props: []string{"C08"}, Why: "the flat arg-reduction scans raw storage: views and lazily transposed tensors are materialised first"},
 	{Rule: "L1", Func: "tensor.(StdEng).argminDenseTensor", Site: "$r.E.ArgminFlat(", Goal: "!(%ok && %d.IsMaterializable())", OrStep: ".Materialize()", Props: []string{"C08"}, Why: "the flat arg-reduction scans raw storage: views and lazily transposed tensors are materialised first"},
+	{Rule: "L1", Func: "tensor.(StdEng).argmaxDenseTensor", Site: "$r.E.ArgmaxFlat", Goal: "($axis == AllAxes)", Props: []string{"C08"}, Why: "the flat arg-reduction answers the all-axes request only: any explicit axis - also of a row or column vector, which has two - goes through the per-lane kernels and keeps the result's shape"},
+	{Rule: "L1", Func: "tensor.(StdEng).argminDenseTensor", Site: "$r.E.ArgminFlat", Goal: "($axis == AllAxes)", Props: []string{"C08"}, Why: "the flat arg-reduction answers the all-axes request only"},
 	{Rule: "L3", Func: "tensor.(StdEng).argmaxDenseTensor", Site: "$r.E.ArgmaxFlat(", Goal: "!($t.DataOrder().IsColMajor() && !$t.IsVector())", Props: []string{"C08", "C16"}, Why: "the flat index is a row-major index"},
 	{Rule: "L3", Func: "tensor.(StdEng).argminDenseTensor", Site: "$r.E.ArgminFlat(", Goal: "!($t.DataOrder().IsColMajor() && !$t.IsVector())", Props: []string{"C08", "C16"}, Why: "the flat index is a row-major index"},
 	// ---- BLAS gateways (C09, C16) ----------------------------------------------------------------
